@@ -4,7 +4,7 @@
    and cmdline/elem.h:1119-1220 (info word); it is tied to the real binary by harness/py/check_C15.py.
    infos : list N is the info array, position k = parity position k, 0 = unused position. *)
 From Coq Require Import NArith ZArith List Bool Lia.
-From Snap.Scrub Require Import ScrubModel ScrubInfo ScrubPlan ScrubBooks ScrubTheorems ScrubCover.
+From Snap.Scrub Require Import ScrubModel ScrubInfo ScrubPlan ScrubBooks ScrubTheorems ScrubCover ScrubExact.
 Import ListNotations.
 
 (* --- every plan: bad stripes always, unused positions never -------------------------------------------- *)
@@ -36,6 +36,20 @@ Proof. exact bad_plan_only_bad. Qed.
 Theorem C15_named_plan_rejects_older : forall t arg d now infos,
   is_named_plan arg = true -> scrub_plan t arg (Some d) now infos = None.
 Proof. exact named_plan_rejects_older. Qed.
+
+(* --- the numbers given to -p / -o (snapraid.c:653-677) ------------------------------------------------------------ *)
+(* full statement wanted: forall v, 100 < v -> parse_plan_number v = None.  It is false for the code as written
+   (the value goes through an `int` before the range test); the partial theorem gives the exact extra hypothesis. *)
+Theorem C15_plan_number_in_range : forall v, (v <= 100)%N -> parse_plan_number v = Some (ArgPct v).
+Proof. exact parse_plan_in_range. Qed.
+Theorem C15_older_number_in_range : forall v, (v <= 1000)%N -> parse_older_number v = Some (Some v).
+Proof. exact parse_older_in_range. Qed.
+Theorem C15_plan_number_range_partial : forall v, (v < 2147483648)%N -> (parse_plan_number v = None <-> (100 < v)%N).
+Proof. exact parse_plan_partial. Qed.
+Theorem C15_plan_number_range_refuted : exists v, (100 < v)%N /\ parse_plan_number v = Some ArgFull.
+Proof. exact parse_plan_range_refuted. Qed.
+Theorem C15_older_number_range_refuted : exists v, (1000 < v)%N /\ parse_older_number v = Some None.
+Proof. exact parse_older_range_refuted. Qed.
 
 (* --- percentage plans: quota, age, oldest first ------------------------------------------------------------ *)
 (* count_sel_good = number of selected stripes that are not marked bad *)
@@ -69,6 +83,14 @@ Theorem C15_auto_oldest_first : forall tl ll infos a b ia ib,
   nth_error (scrub_selected SCRUB_AUTO tl ll infos) b = Some false ->
   (info_get_time ia <= info_get_time ib)%N /\ (info_get_time ia = info_get_time ib -> (a < b)%nat).
 Proof. exact auto_oldest_first. Qed.
+
+(* without bad marks the selection has exactly count_limit elements: together with C15_auto_oldest_first the selected
+   set is the first count_limit stripes in (time, position) order *)
+Theorem C15_auto_exact : forall t arg older now infos cl tl ll,
+  scrub_limits t arg older now infos = Lim SCRUB_AUTO cl tl ll ->
+  Forall (fun x => info_get_bad x = false) infos ->
+  count_sel_good infos (scrub_selected SCRUB_AUTO tl ll infos) = N.to_nat cl.
+Proof. exact auto_exact. Qed.
 
 (* --- the books ------------------------------------------------------------------------------------------------ *)
 (* verified ds ps : every block of a file was read and its hash (when recorded) matches, every parity was read and
@@ -165,6 +187,9 @@ Proof. cbv zeta. split; [vm_compute; reflexivity|]. split; vm_compute; intuition
 
 Print Assumptions C15_bad_always.
 Print Assumptions C15_default_scrub_covers.
+Print Assumptions C15_auto_exact.
+Print Assumptions C15_plan_number_range_refuted.
+Print Assumptions C15_plan_number_range_partial.
 Print Assumptions C15_full_all_used.
 Print Assumptions C15_new_only_justsynced.
 Print Assumptions C15_bad_plan_only_bad.
